@@ -142,6 +142,15 @@ def run(run, tier, seed, replay=None):
         run.sample({"name": unrec[0][1], "src_tail": unrec[0][0][-120:]})
     if drv:
         drv.close()
+    # scope-trace model (depth back at file level) vs the implementation, after every statement
+    sstats = {}
+    if replay is None and b.make_ok:
+        import scopecorr
+        sprogs = list(progs[:40 if tier == "quick" else 400])
+        sprogs += scopecorr.variants(sprogs[::4], rnd)
+        sfound, sstats = scopecorr.check(run, b, sprogs)
+        found |= sfound
+    run.cov["scope_trace_correspondence"] = sstats
     common.broken_obligations(run, b, found)
     disc = sum(1 for t in b.theorems if t not in b.open_assumptions) if b.make_ok else 0
     return run.finish(max(len(b.theorems), 4), disc,
